@@ -267,7 +267,8 @@ static void ops_run(const Plan *p, RunResult *r)
 	rng_seed(&g_orng, (uint64_t)p->plan_seed, 0x0b5);
 	g_sim.on_switch = mon_on_switch;
 	g_nops_done = g_nops_failed_expected = g_unexpected = 0;
-	(void)creds_get(1, 0);
+	/* everything that is cached across runs is built here, outside the task, from the setup stream */
+	(void)creds_get(1, 0); (void)creds_get(1, 1);
 	sim_spawn("op", 0, ops_sequence, (void *)p);
 	sim_run();
 	mon_on_switch(-1);
